@@ -23,9 +23,13 @@ pub enum Case {
     /// the zoo of exported types in their default / valid states
     Defaults { hash_seed: u64, reader_seed: u64 },
     /// a locomotive or consist simulation: every step index as a crash point, every format
-    PowerSim { locos: Vec<pt::LocoSpec>, as_consist: bool, pdct: String, save_interval: Option<usize>, n_steps: usize, brake_first: bool, assert_limits: bool, hash_seed: u64, reader_seed: u64 },
+    PowerSim { locos: Vec<pt::LocoSpec>, as_consist: bool, pdct: String, save_interval: Option<usize>, n_steps: usize, brake_first: bool, assert_limits: bool, #[serde(default = "one")] dt: f64, hash_seed: u64, reader_seed: u64 },
     /// a train simulation (set-speed or speed-limited) from the trn generator: sampled crash points x formats
     TrainSim { inner: trn::Case, n_steps: usize, finished: bool, reader_seed: u64 },
+}
+
+fn one() -> f64 {
+    1.0
 }
 
 impl Case {
@@ -76,6 +80,9 @@ pub fn generate(rng: &mut Rng, _focus: &str, _thorough: bool) -> Case {
                 n_steps: rng.usize(4, 40),
                 brake_first: rng.chance(0.3),
                 assert_limits: !rng.chance(0.25),
+                // coarse traces (minutes per step): the battery model then leaves its SOC window between two
+                // steps and carries on from there - such a state must checkpoint like any other
+                dt: if rng.chance(0.15) { *rng.pick(&[30.0, 120.0, 300.0, 600.0]) } else { 1.0 },
                 hash_seed: rng.next(),
                 reader_seed: rng.next(),
             }
@@ -324,6 +331,13 @@ pub fn roundtrip<T: SerdeAPI>(ctx: &mut Ctx, name: &str, x: &T, rng: &mut Rng, w
 trait Steppable: SerdeAPI + Clone {
     fn step1(&mut self) -> anyhow::Result<()>;
     fn totals(&self) -> Vec<f64>;
+    /// reach probe: some battery's state of charge is outside its configured window in this state
+    fn soc_outside(&self) -> bool {
+        false
+    }
+}
+fn loco_soc_outside(l: &altrios_core::consist::locomotive::Locomotive) -> bool {
+    l.reversible_energy_storage().map(|r| r.state.soc < r.min_soc || r.state.soc > r.max_soc).unwrap_or(false)
 }
 impl Steppable for LocomotiveSimulation {
     fn step1(&mut self) -> anyhow::Result<()> {
@@ -332,6 +346,9 @@ impl Steppable for LocomotiveSimulation {
     fn totals(&self) -> Vec<f64> {
         vec![self.loco_unit.state.energy_out.value, self.loco_unit.state.energy_aux.value, self.i as f64]
     }
+    fn soc_outside(&self) -> bool {
+        loco_soc_outside(&self.loco_unit)
+    }
 }
 impl Steppable for ConsistSimulation {
     fn step1(&mut self) -> anyhow::Result<()> {
@@ -339,6 +356,9 @@ impl Steppable for ConsistSimulation {
     }
     fn totals(&self) -> Vec<f64> {
         vec![self.loco_con.state.energy_out.value, self.loco_con.state.energy_fuel.value, self.loco_con.state.energy_res.value, self.i as f64]
+    }
+    fn soc_outside(&self) -> bool {
+        self.loco_con.loco_vec.iter().any(loco_soc_outside)
     }
 }
 impl Steppable for SetSpeedTrainSim {
@@ -366,10 +386,14 @@ fn resume_all<T: Steppable>(ctx: &mut Ctx, name: &str, start: &T, n: usize, poin
     let mut trail: Vec<T> = vec![live.clone()];
     let mut n_ok = 0;
     for _ in 0..n {
-        if live.step1().is_err() {
+        if let Err(e) = live.step1() {
+            ctx.hit_dyn(format!("note.io.run_ends_with: {}", format!("{e:#}").lines().last().unwrap_or("").trim().chars().take(70).collect::<String>()));
             break;
         }
         n_ok += 1;
+        if live.soc_outside() {
+            ctx.hit("probe.io.checkpoint_with_soc_outside_window");
+        }
         trail.push(live.clone());
     }
     ctx.add("stat.steps", n_ok as u64);
@@ -468,13 +492,16 @@ pub fn execute(case: &Case, ctx: &mut Ctx) {
             let _ = s;
             ctx.nontrivial = true;
         }
-        Case::PowerSim { locos, as_consist, pdct, save_interval, n_steps, brake_first, assert_limits, reader_seed, .. } => {
-            ctx.class.push(format!("io:powersim:{}:n{}:iv{:?}:al{}", if *as_consist { "con" } else { "loco" }, locos.len(), save_interval.map(|x| x.min(3)), assert_limits));
+        Case::PowerSim { locos, as_consist, pdct, save_interval, n_steps, brake_first, assert_limits, dt, reader_seed, .. } => {
+            ctx.class.push(format!("io:powersim:{}:n{}:iv{:?}:al{}:dt{}", if *as_consist { "con" } else { "loco" }, locos.len(), save_interval.map(|x| x.min(3)), assert_limits, dt));
+            if *dt > 1.0 {
+                ctx.hit("probe.io.coarse_trace");
+            }
             let mut rng = Rng::new(*reader_seed);
             let ptc = pt::Case { locos: locos.clone(), as_consist: *as_consist, pdct: pdct.clone(), save_interval: *save_interval, ops: vec![], hash_seed: 0, shipped_walk: false, twin: false };
             let n = *n_steps + 1;
             let rating: f64 = locos.iter().map(|l| match &l.kind { pt::KindSpec::Conv { fc, .. } => fc.p_max, pt::KindSpec::Bel { res, edrv } => res.p_max.min(edrv.p_max), _ => 1e6 }).fold(f64::INFINITY, f64::min) * locos.len() as f64;
-            let time: Vec<f64> = (0..n).map(|k| k as f64).collect();
+            let time: Vec<f64> = (0..n).map(|k| k as f64 * *dt).collect();
             let pwr: Vec<f64> = (0..n)
                 .map(|k| {
                     if *brake_first && k <= 2 {
@@ -483,6 +510,16 @@ pub fn execute(case: &Case, ctx: &mut Ctx) {
                     // with limit checking off the demand may exceed the transient limit: a reload that re-arms the
                     // checks makes the resumed copy refuse what the uninterrupted run accepts
                     let amp = if *assert_limits { 0.03 } else { 0.12 };
+                    if *dt > 1.0 {
+                        // coarse trace: each step moves the smallest battery by a few per cent of its capacity, so a
+                        // step that starts just outside a derating ramp ends beyond the SOC window
+                        let cap_min = locos.iter().filter_map(|l| match &l.kind { pt::KindSpec::Bel { res, .. } => Some(res.cap_j), _ => None }).fold(f64::INFINITY, f64::min);
+                        if cap_min.is_finite() {
+                            let per_step = 0.03 + 0.09 * ((*reader_seed >> 8) % 1000) as f64 / 1000.0;
+                            let p = (per_step * cap_min * locos.len() as f64 / *dt).min(0.85 * rating);
+                            return if k % 7 >= 4 { -0.8 * p } else { p };
+                        }
+                    }
                     rating * (amp * (k.min(10) as f64) / 10.0 + if k % 7 == 3 { -0.04 } else { 0.0 })
                 })
                 .collect();
@@ -570,8 +607,8 @@ pub fn execute(case: &Case, ctx: &mut Ctx) {
 pub fn shrink(case: &Case) -> Vec<Case> {
     let mut out = vec![];
     match case {
-        Case::PowerSim { locos, as_consist, pdct, save_interval, n_steps, brake_first, assert_limits, hash_seed, reader_seed } => {
-            let mk = |locos: Vec<pt::LocoSpec>, n: usize, iv: Option<usize>, bf: bool| Case::PowerSim { locos, as_consist: *as_consist, pdct: pdct.clone(), save_interval: iv, n_steps: n, brake_first: bf, assert_limits: *assert_limits, hash_seed: *hash_seed, reader_seed: *reader_seed };
+        Case::PowerSim { locos, as_consist, pdct, save_interval, n_steps, brake_first, assert_limits, dt, hash_seed, reader_seed } => {
+            let mk = |locos: Vec<pt::LocoSpec>, n: usize, iv: Option<usize>, bf: bool| Case::PowerSim { locos, as_consist: *as_consist, pdct: pdct.clone(), save_interval: iv, n_steps: n, brake_first: bf, assert_limits: *assert_limits, dt: *dt, hash_seed: *hash_seed, reader_seed: *reader_seed };
             if *n_steps > 2 {
                 out.push(mk(locos.clone(), n_steps / 2, *save_interval, *brake_first));
                 out.push(mk(locos.clone(), n_steps - 1, *save_interval, *brake_first));
